@@ -26,6 +26,8 @@ def ncases():
 def true_cv(xf, lb, ub, lin, nl_vals):
     """Maximum violation of the constraints as the user stated them (written from the statement)."""
     v = 0.0
+    if lb is not None:          # bounds (0 when they are consistent: build_x projects)
+        v = max(0.0, float(np.max(lb - xf, initial=0.0)), float(np.max(xf - ub, initial=0.0)))
     for (A, l, u) in lin:
         r = A @ xf
         v = max(v, float(np.max(np.maximum(l - r, 0.0), initial=0.0)), float(np.max(np.maximum(r - u, 0.0), initial=0.0)))
@@ -71,6 +73,14 @@ class ProblemInitBounded(Unit):
                     pattern = np.where(pattern == 0, 1, pattern)
                     lb = np.where(np.isinf(lb), rng.uniform(-3, 0, n), lb)
                     ub = np.where(np.isinf(ub), lb + rng.uniform(0.5, 4, n), ub)
+                inconsistent = bool(rng.random() < 0.12)
+                if inconsistent:
+                    # the bounds of one variable cross (lb > ub): minimize answers status -1 at x0, and the reported maxcv must still
+                    # be the true violation there; variables fixed by equal bounds elsewhere keep their value
+                    j = int(rng.integers(0, n))
+                    lb[j] = rng.uniform(-1, 1)
+                    ub[j] = lb[j] - rng.uniform(0.25, 2)
+                    pattern[j] = 1
                 scale = bool(rng.random() < 0.5)
                 x0 = rng.uniform(-4, 4, n)
                 lin = []
@@ -102,11 +112,14 @@ class ProblemInitBounded(Unit):
                     else:
                         xr = np.zeros(0)
                     xf = pb.build_x(xr)
-                    chk("C01.problem_init.build_x_inside_bounds", bool(np.all(lb <= xf) and np.all(xf <= ub) and np.all(xf[fixed] == lb[fixed])), dict(info, x=xr.tolist()))
+                    if inconsistent:
+                        chk("C01.problem_init.fixed_variables_held_even_with_inconsistent_bounds", bool(np.all(xf[fixed] == lb[fixed])), dict(info, x=xr.tolist()))
+                    else:
+                        chk("C01.problem_init.build_x_inside_bounds", bool(np.all(lb <= xf) and np.all(xf <= ub) and np.all(xf[fixed] == lb[fixed])), dict(info, x=xr.tolist()))
                     # internal linear residuals versus the user's constraints at the rebuilt point
                     internal = max(float(np.max(pb.linear.a_ub @ xr - pb.linear.b_ub, initial=0.0)) if pb.linear.m_ub else 0.0,
                                    float(np.max(np.abs(pb.linear.a_eq @ xr - pb.linear.b_eq), initial=0.0)) if pb.linear.m_eq else 0.0, 0.0)
-                    user_lin = true_cv(xf, lb, ub, lin, [])
+                    user_lin = true_cv(xf, None, None, lin, [])
                     tol = 1e-9 * (1.0 + user_lin)
                     chk("C10.problem_init.linear_residuals_match_user_constraints", abs(internal - user_lin) <= tol,
                         dict(info, x=xr.tolist(), internal=internal, user=user_lin))
